@@ -27,6 +27,11 @@ CHECKS = {
    note="Host callables are stubs; everything else is real. The absorbing rules of && || ?: and macro semantics over errors are taken as given (C02): differences that also occur without host calls are counted (core_disagreement) but not reported under C14. One recorded finding (known_findings.json) is matched only through a counterfactual re-execution.",
    technique="deterministic simulation of the host-function seam: scripted stub peers with seeded fault injection, call-history oracle against a reference model plus metamorphic substitution oracle, AST-level minimisation",
    ref="3 (C14)"),
+ "C17": dict(
+   text="Filter-context lifecycle over fault-laden histories: every evaluation runs under a fresh in-process fake Custodian filter F_k (manager, session, clients, resource managers, simulated urlopen) through the three documented routes and both runners; faults: CEL error, helper ValueError, fake filter/client raising an unmapped exception, URLError / timeout / truncated gzip on the simulated network, abort at an arbitrary library line. Invariants per operation: C7N is None before and after, every fake call sees exactly the running operation's context, every value obtained through the filter carries k, fault-free operations after a fault return their reference value. The helper functions (set algebra, CIDR, versions, tags, ARNs) are pure and are only sampled against small independent reference models as the per-operation reference. Sampling, not proof.",
+   note="Custodian side and urlopen are fakes; c7nlib, celpy, ipaddress, packaging, fnmatch, zlib are real. Aborts are not injected inside C7NContext.__enter__/__exit__ themselves. Inputs on which the statement is silent are not asserted.",
+   technique="deterministic simulation: seeded evaluation histories against an in-process fake Custodian filter and simulated network with fault injection; lifecycle invariants + reference-model oracle; ddmin replay",
+   ref="3 (C17)"),
  "C16": dict(
    text="2-4 real threads, each with its own Environment/program/bindings (the documented contract), run under a seeded baton-passing scheduler that pre-empts at every Python line of celpy and of transpiled code (policies: PCT depth<=3, random, hot-site-biased, round-robin; optional abort fault in one thread); every outcome must equal the same thread run alone; bounded liveness (<= 50x the alone step count). Sampling of schedules, not enumeration.",
    note="Pre-emption granularity is one source line (sys.monitoring LINE events); C extensions, lark (except in trace_lark runs of the thorough tier) and the stdlib are atomic. The choice of who runs is the only stub. Free-running OS-scheduled stress is deliberately not used (not replayable).",
